@@ -199,6 +199,27 @@ def _worker(job):
     return out
 
 
+def _hist_worker(job):
+    """histories: the doctests of one run share one options dict, as xdoctest.runner hands config['default_runtime_state'] to
+    every example; each doctest starts from the default options, whatever an earlier one did with block directives"""
+    out = []
+    for h in job:
+        shared = dict(h['default'])
+        problem = None
+        for i, (doc, expect) in enumerate(h['docs']):
+            impl, ex, rec = runmodel.run_impl(doc, prelude=PRELUDE, shared_default=shared)
+            if impl['end'] != 'summary' or impl['failed']:
+                problem = 'doctest %d of the history did not pass: %s %s' % (i, impl['end'], impl['failure'])
+            elif impl['trace'] != expect:
+                problem = 'doctest %d of the history executed %r, the scoping rules from the default options give %r' % (i, impl['trace'], expect)
+            elif shared != h['default']:
+                problem = 'doctest %d changed the default options shared by the run: %r' % (i, shared)
+            if problem:
+                break
+        out.append(problem)
+    return out
+
+
 def unit_level(ctx):
     """RuntimeState.update sequences vs the model (to_dict, skip test, error class)"""
     from xdoctest import directive
@@ -307,6 +328,28 @@ def run(ctx):
                     lines += ['>>> # xdoctest: %s' % skipdir.replace('+', '-', 1)]
                 lines += [">>> print('late', t(12))", 'early 10', 'late 12']
                 cases.append(dict(doc='\n'.join(lines), expect=[10, 12], events=[('stmt', [], 10), ('stmt', [], 12)]))
+    # histories over one shared options dict (quantifier: histories x configurations)
+    hists = []
+    rng = ctx.rng('histories')
+    for _ in range(120 if ctx.tier == 'quick' else 1500):
+        dflt = rng.choice([{'SKIP': True}, {'SKIP': False}, {'IGNORE_WANT': True}, {'ELLIPSIS': False}])   # booleans: what --options can produce (BoolDefaults)
+        start = (bool(dflt.get('SKIP', False)), ())
+        docs = []
+        for j in range(rng.randint(2, 3)):
+            events = [('stmt', [], 20 + 10 * j)]
+            for q in range(rng.randint(1, 3)):
+                events.append(('block', [rng.choice(DIRS)]))
+                events.append(('stmt', [rng.choice(DIRS)] if rng.random() < 0.3 else [], 21 + 10 * j + q))
+            docs.append((render(events, SHAPES), spec_trace(events, start)))
+        hists.append(dict(default=dflt, docs=docs))
+    hres = [r for ch in common.pmap(_hist_worker, [hists[i:i + 40] for i in range(0, len(hists), 40)]) for r in ch]
+    for h, problem in zip(hists, hres):
+        ctx.evaluations += 1
+        ctx.count('history:shared-options')
+        if problem and len([v for v in ctx.violations if v['kind'] == 'history-scoping']) < 3:
+            ctx.violation('history-scoping', {'what': problem, 'history': [[d, e] for d, e in h['docs']],
+                          'default_runtime_state': {k: (sorted(v) if isinstance(v, set) else v) for k, v in h['default'].items()},
+                          'theorem_or_correspondence': 'C04_defaults_as_leading_block + run_trace_independent_of_history on DocTest.run'}, True)
     chunks = [cases[i:i + 150] for i in range(0, len(cases), 150)]
     results = [r for ch in common.pmap(_worker, chunks) for r in ch]
     seen = set()
@@ -343,6 +386,14 @@ def run(ctx):
 
 def replay(path):
     d = json.load(open(path))
+    if 'history' in d:
+        dflt = {k: (set(v) if isinstance(v, list) else v) for k, v in d['default_runtime_state'].items()}
+        problem = _hist_worker([dict(default=dflt, docs=[(a, b) for a, b in d['history']])])[0]
+        print('history of %d doctests, default options %r\nproblem=%r' % (len(d['history']), dflt, problem))
+        if problem:
+            print('VIOLATION property=C04 replay=%s' % path)
+            return 1
+        return 0
     if 'doctest' not in d:
         print(json.dumps(d, indent=1)[:2000])
         print('VIOLATION property=C04 replay=%s' % path)
